@@ -164,17 +164,17 @@ def _tla_scenario(g):
     return "S(<<%s>>, <<>>, %d)" % (", ".join(elems), g["cores"])
 
 
-def behaviours_gen(ctx, out, n_scn, num, depth, seed_off=0):
+def behaviours_gen(ctx, out, n_scn, num, depth, seed_off=0, base_cfg="RaceDriver.sim.cfg", with_fault=False):
     """TLC -simulate behaviours over a GENERATED scenario family (model-side invariants are checked by TLC while simulating)."""
     rnd = random.Random(ctx.seed * 1009 + 77 + seed_off)
     gens = gen_scenarios(rnd, n_scn)
     wd = tlc.prepare_workdir("RaceDriver", "racegen")
     with open(os.path.join(wd, "MC_Gen.tla"), "w", encoding="utf-8") as f:
         f.write("---- MODULE MC_Gen ----\nEXTENDS MC_RaceDriver\nGenScenarios == {\n  %s\n}\n====\n" % ",\n  ".join(_tla_scenario(g) for g in gens))
-    with open(os.path.join(wd, "RaceDriver.sim.cfg"), "r", encoding="utf-8") as f:
-        cfg = f.read().replace("Scenarios <- ThoroughScenarios", "Scenarios <- GenScenarios")
+    with open(os.path.join(wd, base_cfg), "r", encoding="utf-8") as f:
+        cfg = re.sub(r"Scenarios <- \w+", "Scenarios <- GenScenarios", f.read(), count=1)
     if "GenScenarios" not in cfg:
-        raise tlc.MachineryError("RaceDriver.sim.cfg no longer names ThoroughScenarios")
+        raise tlc.MachineryError("%s does not substitute Scenarios" % base_cfg)
     with open(os.path.join(wd, "RaceDriver.gen.cfg"), "w", encoding="utf-8") as f:
         f.write(cfg)
     simdir = os.path.join(wd, "sim")
@@ -183,7 +183,7 @@ def behaviours_gen(ctx, out, n_scn, num, depth, seed_off=0):
     if not res.ok:
         raise tlc.MachineryError("simulation over generated scenarios reported a model violation: %s" % res.out[-2500:])
     out.add_tlc(res)
-    return _parse_behaviours(simdir, False), len(gens)
+    return _parse_behaviours(simdir, with_fault), len(gens)
 
 
 def scn_signature(scn):
